@@ -70,6 +70,8 @@ def check(ctx) -> None:
     r177(ctx)
     r178(ctx)
     r179(ctx)
+    r1710(ctx)
+    r1711(ctx)
 
 
 def r171(ctx) -> None:
@@ -481,3 +483,123 @@ def r179(ctx) -> None:
             'that makes the claim exclusive across sessions (each '
             'connection has its own MailboxSet and lock), so two racing '
             'read-write SELECTs both announce the same message as \\Recent')
+
+
+def _cached_instance_methods(tree) -> list:
+    out = []
+    for c in ast.walk(tree):
+        if not isinstance(c, ast.ClassDef):
+            continue
+        for m in c.body:
+            if not isinstance(m, (ast.FunctionDef, ast.AsyncFunctionDef)):
+                continue
+            decos = [txt(d.func if isinstance(d, ast.Call) else d)
+                     .split('.')[-1] for d in m.decorator_list]
+            if {'staticmethod', 'classmethod'} & set(decos):
+                continue
+            if {'lru_cache', 'cache', 'cached'} & set(decos) and \
+                    m.args.args and m.args.args[0].arg == 'self':
+                out.append((c, m))
+    return out
+
+
+def r1710(ctx) -> None:
+    """The set of live selections of a mailbox holds them weakly: a
+    connection that goes away takes its selection out of the running for
+    \\Recent.  A functools cache on an INSTANCE method keeps `self` (and the
+    bound method) in a module-level table for the life of the process, so a
+    connection state whose connection ended without CLOSE stays "selected"
+    for ever and is handed the \\Recent of every later delivery."""
+    R = ctx.rule('R17.10', 'no process-lifetime cache holds connection or '
+                 'session objects', 1)
+    n = 0
+    for mod in ctx.proj.modules.values():
+        if not mod.rel.startswith('pymap/') or mod.rel.startswith((
+                'pymap/admin/', 'pymap/backend/redis/')):
+            continue
+        n += 1
+        for c, m in _cached_instance_methods(mod.tree):
+            f = ctx.proj.try_func(mod.rel, f'{c.name}.{m.name}')
+            R.fail(f, m, f'{c.name}.{m.name}: functools cache on an '
+                   f'instance method',
+                   f'`{c.name}.{m.name}` is cached with `self` as part of '
+                   f'the key: every {c.name} ever created stays reachable '
+                   f'from the cache.  For ConnectionState that keeps its '
+                   f'`_selected` in the mailbox\'s weak SelectedSet after '
+                   f'the connection is gone: A SELECTs and disconnects, B '
+                   f'APPENDs, C SELECTs and is told 0 RECENT — the message '
+                   f'was given to A\'s dead selection')
+    R.ok(None, None, f'{n} modules scanned',
+         'no functools cache on an instance method')
+    import os
+    from ..report import VERIF
+    tree = ast.parse(open(os.path.join(VERIF, 'fixtures',
+                                       'r1710_positive.py')).read())
+    hits = len(_cached_instance_methods(tree))
+    R.check(hits == 2, None, None, 'positive fixture still matches',
+            f'fixtures/r1710_positive.py: {hits} hit(s), expected 2')
+
+
+def _drops_recent(e) -> bool:
+    """`<flags> - {Recent}` or `<permanent flags> & <flags>` somewhere in e."""
+    for x in ast.walk(e):
+        if isinstance(x, ast.BinOp) and isinstance(x.op, ast.Sub) and any(
+                isinstance(y, ast.Name) and y.id == 'Recent'
+                for y in ast.walk(x.right)):
+            return True
+        if isinstance(x, ast.BinOp) and isinstance(x.op, ast.BitAnd) and \
+                'permanent_flags' in txt(x):
+            return True
+    return False
+
+
+def r1711(ctx) -> None:
+    """`\\Recent` in an APPEND flag list is lexically a flag-extension, so it
+    parses.  Whatever flag set the client chose reaches the backend's store
+    only with \\Recent taken out (STORE intersects with the permanent flags;
+    APPEND has to do the same or subtract it)."""
+    R = ctx.rule('R17.11', 'a client-chosen flag set is stored only without '
+                 '\\Recent', 1)
+    bs = ctx.proj.cls(SESS, 'BaseSession')
+    f = bs.own_method('append_messages')
+    if f is None:
+        raise AnchorError('BaseSession.append_messages vanished')
+    apps = [c for c in calls_in(f.node, 'append')
+            if isinstance(c.func.value, ast.Name) and c.args and any(
+                isinstance(strip_await(v), ast.Call) and call_name(
+                    strip_await(v)) in ('_get_mailbox', 'get_mailbox')
+                for _, v in local_assigns(f, c.func.value.id)
+                if v is not None)]
+    if not apps:
+        raise AnchorError('append_messages: backend append call not found')
+    for c in apps:
+        ok = False
+        a = c.args[0]
+        vals = [a]
+        if isinstance(a, ast.Name):
+            vals = [v for _, v in local_assigns(f, a.id) if v is not None]
+        for v in vals:
+            if isinstance(v, ast.Call) and call_name(v) in (
+                    'replace', '_replace', 'AppendMessage'):
+                kw = kwarg(v, 'flag_set')
+                if kw is not None and _drops_recent(kw):
+                    ok = True
+        if not ok:
+            # or already where the command is parsed
+            pc = ctx.proj.try_func('pymap/parsing/command/auth.py',
+                                   'AppendCommand._parse_msg') or \
+                ctx.proj.try_func('pymap/parsing/command/auth.py',
+                                  'AppendCommand.parse')
+            if pc is not None:
+                for s_ in walk_local(pc.node):
+                    if isinstance(s_, ast.Assign) and any(
+                            isinstance(t, ast.Name) and t.id == 'flags'
+                            for t in s_.targets) and _drops_recent(s_.value):
+                        ok = True
+        R.check(ok, f, c, 'append_messages: the flag set handed to the '
+                'backend has \\Recent removed',
+                f'`{txt(c)[:60]}` passes the client\'s flag set on as '
+                f'parsed: `APPEND Sent (\\Recent \\Seen) {{n}}` stores '
+                f'\\Recent as a permanent flag, and every later session '
+                f'gets `FLAGS (\\Recent \\Seen)` for that message while '
+                f'`* 0 RECENT` says there is none')
